@@ -27,8 +27,11 @@ import (
 	"encoding/base64"
 	"encoding/hex"
 	"encoding/json"
+	"errors"
 	"fmt"
+	"io"
 	"math/big"
+	"net/http"
 	"os"
 	"path/filepath"
 	"sort"
@@ -614,6 +617,10 @@ type wwHist struct {
 	saved     int
 	savedWithR int
 	notes     []string
+	tokCmps   []wwCompare
+	failNow   []wwFail
+	stripPct  int // answers: chance that a blind signature loses its DLEQ before the wallet sees it
+	dropPct   int // answers: chance that the response of a POST is lost after the mint executed it
 	blind     []string // places where the harness's independent knowledge has a gap (the monitor would be blind there)
 	fail      func(sig, what string, replay any)
 }
@@ -844,6 +851,9 @@ func (h *wwHist) onRequest(wr *WireReq) {
 		if p.Witness != "" {
 			inW = true
 		}
+		if pi != nil && pi.Amount != p.Amount {
+			h.blind = append(h.blind, fmt.Sprintf("request %d (%s/%s): input %s travels with amount %d, the wallet holds it with amount %d", len(h.reqs)-1, h.curOp, ep, p.Secret, p.Amount, pi.Amount))
+		}
 		amt := p.Amount
 		ins = append(ins, L(A("p"), N(amt), I(sid), B(w), dleqSx(pi, sid)))
 	}
@@ -884,6 +894,10 @@ func (h *wwHist) onRequest(wr *WireReq) {
 	case "restore":
 		rec.Cmd = L(A("wallet.restorereq"), Ls(outs))
 	}
+	if rec.Cmd == nil {
+		// a request with a body at a place the model has no builder for: the theorems would not speak about it
+		h.blind = append(h.blind, fmt.Sprintf("request %d: %s %s during %s (site %s) is not a request construction site of the model", len(h.reqs)-1, wr.Method, wr.Path, h.curOp, rec.Site))
+	}
 }
 
 // wwNoOutW: the model adds the output witnesses itself (SIG_ALL); describe the outputs without them
@@ -910,7 +924,7 @@ type wwTabIdx struct {
 }
 
 // onResponse runs when the mint answered (Net.After): shadow constructProofs, settlement of cross-mint invoices.
-func (h *wwHist) onResponse(wr *WireReq) {
+func (h *wwHist) onResponse(wr *WireReq, delivered bool) {
 	h.tab.mu.Lock()
 	defer h.tab.mu.Unlock()
 	if len(h.reqs) > 0 {
@@ -938,7 +952,7 @@ func (h *wwHist) onResponse(wr *WireReq) {
 	if ep == "melt" {
 		sigs = resp.Change
 	}
-	if ep == "swap" || ep == "mint" || ep == "melt" {
+	if delivered && (ep == "swap" || ep == "mint" || ep == "melt") {
 		for i, sg := range sigs {
 			if i >= len(req.Outputs) {
 				break
@@ -1151,8 +1165,66 @@ func (h *wwHist) makeTokenAs(proofs cashu.Proofs, mi int, from int, kind string,
 		}
 	}
 	h.count("tokens", fmt.Sprintf("%s %s: proofs carry dleq.r = %v", kind, desc, withR > 0))
-	// the token text itself is a value for the caller: it MAY contain r (that is its purpose)
+	h.checkToken(proofs, s, v4, incl, kind, desc)
 	return wwToken{tok: dec, mint: mi, from: from, kind: kind, desc: desc}, true
+}
+
+// checkToken: the token text is a value for the wallet's CALLER.  It carries blinding factors exactly when the caller
+// asked for DLEQs (that is their purpose); built with includeDLEQ = false it must carry none, in any encoding.
+func (h *wwHist) checkToken(proofs cashu.Proofs, text string, v4, incl bool, kind, desc string) {
+	h.tab.mu.Lock()
+	defer h.tab.mu.Unlock()
+	var hits []wwScanHit
+	h.tab.scanBytes([]byte(text), 3, "", &hits)
+	foundR, foundES := false, false
+	for _, ht := range hits {
+		switch ht.v.kind {
+		case wwKindR:
+			foundR = true
+		case wwKindE, wwKindS:
+			foundES = true
+		}
+	}
+	hadR := false
+	var ps []Sx
+	for _, p := range proofs {
+		sid := h.tab.sid(p.Secret)
+		pi := &wwProofInfo{HasDLEQ: p.DLEQ != nil, HasR: p.DLEQ != nil && p.DLEQ.R != ""}
+		if pi.HasR {
+			hadR = true
+		}
+		ps = append(ps, L(A("p"), N(p.Amount), I(sid), B(p.Witness != ""), dleqSx(pi, sid)))
+	}
+	want := incl && hadR
+	h.count("token-text", fmt.Sprintf("%s: proofs had r=%v, blinding factor in the token text=%v, e/s in the text=%v", desc, hadR, foundR, foundES))
+	replay := map[string]any{"history": h.id, "token": text, "includeDLEQ": incl, "version": desc, "ops": append([]string(nil), h.oplog...)}
+	if foundR && !incl {
+		h.failNow = append(h.failNow, wwFail{Sig: "C08/r-in-token-built-without-dleq/" + map[bool]string{true: "v4", false: "v3"}[v4],
+			What: "a token built with includeDLEQ=false carries a blinding factor", Replay: replay})
+	}
+	if want && !foundR {
+		h.blind = append(h.blind, "token built with includeDLEQ=true from proofs with r: the scanner does not find r in the token text ("+desc+")")
+	}
+	ver := "v3"
+	if v4 {
+		ver = "v4"
+	}
+	cmd := L(A("wallet.token"), A(ver), B(incl), Ls(ps))
+	if v4 {
+		h.tokCmps = append(h.tokCmps, wwCompare{Cmd: cmd, Impl: "(token " + fmt.Sprint(foundR), Prefix: true, Replay: replay})
+		return
+	}
+	raw, err := base64.URLEncoding.DecodeString(strings.TrimPrefix(text, "cashuA"))
+	if err != nil {
+		return
+	}
+	d := json.NewDecoder(bytes.NewReader(raw))
+	d.UseNumber()
+	doc, err := parseOrdered(d)
+	if err != nil {
+		return
+	}
+	h.tokCmps = append(h.tokCmps, wwCompare{Cmd: cmd, Impl: Render(L(A("token"), B(foundR), h.tab.shapeOf(doc, "", ""))), Replay: replay})
 }
 
 func (h *wwHist) opSend(wi, mi int, amount uint64, includeFees bool) bool {
@@ -1529,6 +1601,7 @@ type wwFail struct {
 type wwCompare struct {
 	Cmd    Sx
 	Impl   string
+	Prefix bool // compare only the beginning of the model's answer (V4 tokens: verdict only, the body is CBOR)
 	Replay any
 }
 
@@ -1662,6 +1735,8 @@ func (h *wwHist) evaluate(res *wwResult) {
 	delete(h.hist["proofs-saved-by-wallets"], fmt.Sprintf("with dleq.r: %d", 0))
 	h.hist["proofs-saved-by-wallets"]["with dleq.r"] += h.savedWithR
 	h.hist["proofs-saved-by-wallets"]["without dleq.r"] += h.saved - h.savedWithR
+	res.fails = append(res.fails, h.failNow...)
+	res.compares = append(res.compares, h.tokCmps...)
 	res.hist = h.hist
 	res.notes = h.notes
 	res.blind = h.blind
@@ -1729,6 +1804,18 @@ func runWWHistory(c *Ctx, net *Net, reg *wwRegistry, id int, seed uint64, name s
 		res.err = "wallet 2: " + err.Error()
 		return res
 	}
+	if !scripted {
+		switch rng.Intn(4) {
+		case 0:
+			h.stripPct = 50 // mixed stores: some proofs with DLEQ, some without
+		case 1:
+			h.stripPct = 100 // a mint that never sends DLEQs
+		}
+		if rng.Chance(20) {
+			h.dropPct = 4
+		}
+	}
+	h.count("setup/answers", fmt.Sprintf("dleq stripped from %d%% of blind signatures, %d%% of POST responses lost", h.stripPct, h.dropPct))
 	h.count("setup", fmt.Sprintf("mints=%d", nm))
 	h.count("setup/input_fee_ppk", fmt.Sprint(feeA))
 	h.count("setup/fee-reserve", map[bool]string{true: "1%", false: "0"}[pctA])
@@ -1760,6 +1847,82 @@ func (r *wwRegistry) get(host string) *wwHist {
 	r.mu.Lock()
 	defer r.mu.Unlock()
 	return r.m[host]
+}
+
+// ---------------------------------------------------------------- transport: "every mint answer"
+
+// wwTransport sits between the wallets and the in-process network.  Per history it may strip the DLEQ from some blind
+// signatures of an answer (NUT-12 makes them optional: the wallet then holds proofs WITHOUT DLEQ next to proofs with)
+// and may lose the response of a POST after the mint executed it (the wallet sees a network error).  What the wallet
+// actually received is what the harness's shadow of constructProofs is fed with.
+type wwTransport struct {
+	net *Net
+	reg *wwRegistry
+}
+
+func wwStripDLEQ(body []byte, chance func() bool) ([]byte, int) {
+	var doc map[string]any
+	if json.Unmarshal(body, &doc) != nil {
+		return body, 0
+	}
+	n := 0
+	for _, k := range []string{"signatures", "change"} {
+		arr, ok := doc[k].([]any)
+		if !ok {
+			continue
+		}
+		for _, e := range arr {
+			if m, ok := e.(map[string]any); ok && m["dleq"] != nil && chance() {
+				delete(m, "dleq")
+				n++
+			}
+		}
+	}
+	if n == 0 {
+		return body, 0
+	}
+	out, err := json.Marshal(doc)
+	if err != nil {
+		return body, 0
+	}
+	return out, n
+}
+
+func (t *wwTransport) RoundTrip(req *http.Request) (*http.Response, error) {
+	var reqBody []byte
+	if req.Body != nil {
+		reqBody, _ = io.ReadAll(req.Body)
+		req.Body.Close()
+		req.Body = io.NopCloser(bytes.NewReader(reqBody))
+	}
+	res, err := t.net.RoundTrip(req)
+	if err != nil {
+		return res, err
+	}
+	h := t.reg.get(req.URL.Host)
+	if h == nil {
+		return res, nil
+	}
+	body, _ := io.ReadAll(res.Body)
+	res.Body.Close()
+	ep := wwEndpoint(req.Method, req.URL.RequestURI())
+	if res.StatusCode == 200 && h.stripPct > 0 && (ep == "swap" || ep == "mint" || ep == "melt") {
+		var n int
+		body, n = wwStripDLEQ(body, func() bool { return h.rng.Chance(h.stripPct) })
+		if n > 0 {
+			h.count("answers-tampered", fmt.Sprintf("DLEQ stripped from blind signatures of a %s answer", ep))
+		}
+	}
+	if req.Method == "POST" && h.dropPct > 0 && h.curOp != "load" && h.rng.Chance(h.dropPct) {
+		h.count("answers-tampered", fmt.Sprintf("response of %s lost after the mint executed it", ep))
+		// the mint did answer: settlement bookkeeping still applies, the wallet learns nothing
+		h.onResponse(&WireReq{Mint: req.URL.Host, Method: req.Method, Path: req.URL.RequestURI(), Body: reqBody, Status: res.StatusCode, Resp: body}, false)
+		return nil, errors.New("verif net: response lost")
+	}
+	h.onResponse(&WireReq{Mint: req.URL.Host, Method: req.Method, Path: req.URL.RequestURI(), Body: reqBody, Status: res.StatusCode, Resp: body}, true)
+	res.Body = io.NopCloser(bytes.NewReader(body))
+	res.ContentLength = int64(len(body))
+	return res, nil
 }
 
 // ---------------------------------------------------------------- scanner self-test
@@ -1833,13 +1996,8 @@ func runWalletWire(c *Ctx) {
 		}
 		return nil
 	}
-	net.After = func(wr *WireReq) error {
-		if h := reg.get(wr.Mint); h != nil {
-			h.onResponse(wr)
-		}
-		return nil
-	}
 	net.Install()
+	http.DefaultTransport = &wwTransport{net: net, reg: reg}
 
 	type job struct {
 		id   int
@@ -1852,7 +2010,7 @@ func runWalletWire(c *Ctx) {
 	}
 	n := 110
 	if c.Thorough {
-		n = 1100
+		n = 900
 	}
 	for i := 0; i < n; i++ {
 		jobs = append(jobs, job{len(jobs), c.Rng.U64(), "random"})
@@ -1921,8 +2079,12 @@ func runWalletWire(c *Ctx) {
 	}
 	answers := c.Drv.Batch(cmds)
 	for i, a := range answers {
-		if a == cmps[i].Impl {
-			c.Hist("shape-comparison", "model tree == real body")
+		if a == cmps[i].Impl || (cmps[i].Prefix && strings.HasPrefix(a, cmps[i].Impl+" ")) {
+			if cmps[i].Prefix {
+				c.Hist("shape-comparison", "model verdict == real token (V4, CBOR)")
+			} else {
+				c.Hist("shape-comparison", "model tree == real body")
+			}
 			continue
 		}
 		c.Hist("shape-comparison", "DIFFERENT")
